@@ -126,6 +126,7 @@ func TestVerifC18Reload(t *testing.T) {
 		return
 	}
 	iface := ag.GetInterface()
+	iface.Check() //nolint:errcheck  (a served request proves the dispatcher runs and has installed its SIGHUP handler)
 	// background clients: every request must be answered
 	var stop int32
 	var answered, bgErrors int64
